@@ -3,6 +3,7 @@ package harness
 import (
 	"bytes"
 	"fmt"
+	"strings"
 	"testing"
 	"time"
 
@@ -245,6 +246,21 @@ func TestC06(t *testing.T) {
 			scs = append(scs, tailLossScenario(n, p, false), tailLossScenario(n, p, true))
 		}
 	}
+	// a long history of separate single losses under a static resend timeout: one message every 5 s,
+	// the first transmission of each lost once. The configuration bounds the repair of every one of
+	// them in the same way, however many came before (judged with a bound of 10 s per message)
+	for _, n := range []uint8{2, 20} {
+		cnt := pick(40, 120)
+		var fl []Fault
+		msgs := make([]int, cnt)
+		for i := range msgs {
+			msgs[i] = 3
+			fl = append(fl, Fault{Drop: true}, Fault{})
+		}
+		scs = append(scs, &GbnScenario{Name: fmt.Sprintf("static-history-n%d", n), N: n, Msgs: [2][]int{msgs, nil},
+			Faults: [2][]Fault{cleanHS(0, fl), nil}, Latency: 10 * time.Millisecond, Static: time.Second,
+			SendGap: [2]time.Duration{5 * time.Second, 0}, RunFor: time.Duration(cnt)*5*time.Second + 200*time.Second})
+	}
 	traces := 0
 	maxDone := time.Duration(0)
 	forEachScenario(t, scs, func(sc *GbnScenario, res *GbnResult) {
@@ -277,9 +293,15 @@ func TestC06(t *testing.T) {
 		if len(sc.Name) > 8 && sc.Name[:8] == "ack-tail" {
 			class = "ack-tail-loss"
 		}
+		if strings.HasPrefix(sc.Name, "static-history") {
+			class = "static-history"
+		}
 		r.Case(sc.Name, faulty, fmt.Sprintf("%s/n=%d/ka=%v/static=%v/hs=%v/asym=%v", class, sc.N, sc.PingNs > 0, sc.Static, sc.HsTimeout, sc.StaticEP != [2]time.Duration{}))
 		// an accepted message is delivered within `bound` of (acceptance, end of faults)
 		bound := 60*time.Second + 100*sc.Latency
+		if class == "static-history" {
+			bound = 10 * time.Second
+		}
 		switch {
 		case f.ClosedNoKA:
 			r.Violate("C06/closed-without-keepalive", "a connection closed itself although keepalive is off", sc)
